@@ -52,6 +52,13 @@ def cases(rng, tier):
                 j = rng.below(len(its) - 1)
                 its[j], its[j + 1] = (its[j + 1], its[j]) if rng.chance(1, 2) else (its[j], (its[j][0], its[j + 1][1]))
                 bad = dns.enc_rdata_ref(tname, [vals[0], ("L", its)])
+            if tname in ("SVCB", "HTTPS") and k % 3 == 0:
+                # repeated keys at the ends of the key space
+                for keys in ((0, 0), (65535, 65535), (65534, 65535, 65535), (1, 65535, 65535), (65535, 0)):
+                    its = [(kk, b"\x01") for kk in keys]
+                    c5 = "RR %s 0" % rr_wire(owner, code, cls, ttl, dns.enc_rdata_ref(tname, [vals[0], vals[1], ("L", its)])).hex()
+                    INFO[c5] = ("rej", tname, "structural rule")
+                    out.append(c5)
             if bad is not None:
                 c3 = "RR %s 0" % rr_wire(owner, code, cls, ttl, bad).hex()
                 INFO[c3] = ("rej", tname, "structural rule")
